@@ -609,8 +609,15 @@ func c06ExpiryVsSet(r *Run, variant int) {
 func c06ReorderedCostDeltas(r *Run, variant int) {
 	rng := r.Rng(int64(6600 + variant))
 	M := int64([]int{100, 200, 1000}[variant%3])
+	// two shapes: the key's cost goes up and down again (1 -> big -> 1: the reversed deltas take its weight below
+	// zero), or down and up again (big -> 1 -> big: the reversed deltas take it to 2*big-1, above MaxSize, although
+	// the true total never exceeds others + big)
+	downUp := variant/3%2 == 1
 	others := int(M)/4 + rng.Intn(int(M)/8) // resident unit-cost keys
-	big := M/2 + rng.Int63n(M/4)            // others + big <= M
+	big := M/2 + rng.Int63n(M/4)
+	if room := M - 2 - int64(others); big > room { // others + big stays below M (and big above M/2)
+		big = room
+	}
 	nl := &noteLog[int, int64]{}
 	c, err := theine.NewBuilder[int, int64](M).RemovalListener(nl.listener()).Build()
 	if err != nil {
@@ -623,25 +630,29 @@ func c06ReorderedCostDeltas(r *Run, variant int) {
 		c.Set(k, int64(k), 1)
 	}
 	const key = 0
-	c.Set(key, 5000, 1)
+	c0, cA, cB := int64(1), big, int64(1)
+	if downUp {
+		c0, cA, cB = big, 1, big
+	}
+	c.Set(key, 5000, c0)
 	c.Wait()
-	script := []string{fmt.Sprintf("MaxSize %d: %d keys of cost 1 and key %d of cost 1 resident (total %d)", M, others, key, others+1)}
+	script := []string{fmt.Sprintf("MaxSize %d: %d keys of cost 1 and key %d of cost %d resident (total %d)", M, others, key, c0, int64(others)+c0)}
 	p := newParker(internal.VPBeforeEvent)
 	defer p.close()
-	ctlA, doneA := p.goParked("A", func() { c.Set(key, 5001, big) })
+	ctlA, doneA := p.goParked("A", func() { c.Set(key, 5001, cA) })
 	if _, parked, err := waitParkedOrDone(ctlA, doneA); err != nil || !parked {
 		r.Inconclusive(1)
 		return
 	}
-	script = append(script, fmt.Sprintf("A: Set(key, cost %d) parked after its map phase (delta +%d not sent yet)", big, big-1))
-	ctlB, doneB := p.goParked("B", func() { c.Set(key, 5002, 1) })
+	script = append(script, fmt.Sprintf("A: Set(key, cost %d) parked after its map phase (delta %+d not sent yet)", cA, cA-c0))
+	ctlB, doneB := p.goParked("B", func() { c.Set(key, 5002, cB) })
 	if _, parked, err := waitParkedOrDone(ctlB, doneB); err != nil || !parked {
 		r.Inconclusive(1)
 		ctlA.release <- struct{}{}
 		<-doneA
 		return
 	}
-	script = append(script, fmt.Sprintf("B: Set(key, cost 1) parked after its map phase (delta -%d not sent yet); true total is %d again", big-1, others+1))
+	script = append(script, fmt.Sprintf("B: Set(key, cost %d) parked after its map phase (delta %+d not sent yet); true total is %d again", cB, cB-cA, int64(others)+cB))
 	ctlB.release <- struct{}{}
 	<-doneB
 	c.Wait()
@@ -664,16 +675,39 @@ func c06ReorderedCostDeltas(r *Run, variant int) {
 			missing++
 		}
 	}
+	if v, ok := c.Get(key); !ok || v != 5002 {
+		missing++
+		script = append(script, fmt.Sprintf("Get(key) = (%d,%v), want the value of the last Set, 5002", v, ok))
+	}
+	vkey := "evicted-below-capacity/cost-deltas-applied-in-reverse-order"
+	if downUp {
+		vkey += "/cost-down-then-up"
+		// the recorded finding: the key whose own two deltas were swapped is evicted at the moment its policy weight
+		// stands above MaxSize, and nothing else is touched. Anything more (another key gone, several evictions)
+		// is a different failure
+		onlyKey := evicted == 1 && missing == 1
+		for _, n := range nl.snapshot() {
+			if n.Reason == theine.EVICTED && n.Key != key {
+				onlyKey = false
+			}
+		}
+		if _, ok := c.Get(key); ok {
+			onlyKey = false
+		}
+		if onlyKey {
+			vkey += "/only-the-rewritten-key-itself-evicted-while-its-policy-weight-stood-above-maxsize"
+		}
+	}
 	if evicted > 0 || missing > 0 {
-		r.Violate("evicted-below-capacity/cost-deltas-applied-in-reverse-order",
-			fmt.Sprintf("%d entries were reported EVICTED and %d of %d untouched keys are gone although the total cost never exceeded %d of MaxSize %d; script: %v", evicted, missing, others, int64(others)+big, M, script), wit)
+		r.Violate(vkey,
+			fmt.Sprintf("%d entries were reported EVICTED and %d of the %d keys are gone although the total cost never exceeded %d of MaxSize %d; script: %v", evicted, missing, others+1, int64(others)+big, M, script), wit)
 	}
 	for _, is := range checkQuiescent(st.VerifSnapshot(), c.EstimatedSize(), true) {
 		r.Violate(is.Key+"/cost-deltas-applied-in-reverse-order", is.What+fmt.Sprintf("; script: %v", script), wit)
 	}
 	r.Eval(1)
 	r.Count("reordered_cost_delta_scenarios", 1)
-	r.Distinct(fmt.Sprintf("reordered-cost-deltas/M%d", M))
+	r.Distinct(fmt.Sprintf("reordered-cost-deltas/M%d/down-up=%v", M, downUp))
 	if variant == 0 {
 		r.Sample(10, map[string]any{"reordered_cost_deltas": script})
 	}
@@ -827,8 +861,8 @@ func runC06(r *Run) {
 		for i := 0; i < r.Pick(2, 8); i++ {
 			c06ExpiryVsSet(r, r.Shard*8+i)
 		}
-		for i := 0; i < r.Pick(3, 12); i++ {
-			c06ReorderedCostDeltas(r, r.Shard*12+i)
+		for i := 0; i < r.Pick(6, 24); i++ {
+			c06ReorderedCostDeltas(r, r.Shard*24+i)
 		}
 		for i := 0; i < r.Pick(1, 6); i++ {
 			c06DoorkeeperAfterChurn(r, r.Shard*6+i)
